@@ -29,7 +29,16 @@ func ToMultiAlign(samIn io.Reader, out io.Writer, wrap int, trimstart int, trime
 
 	go groupSamRecords(samIn, cSH, cSR, cReadDone, cErr)
 
-	header := <-cSH
+	// the reader reports a stream that has no parsable header (e.g. an empty one) on the error channel
+	var header biogosam.Header
+	select {
+	case header = <-cSH:
+	case err := <-cErr:
+		return err
+	}
+	if len(header.Refs()) == 0 {
+		return errors.New("no reference sequence (@SQ line) in the sam header")
+	}
 	refLen := header.Refs()[0].Len()
 
 	trimstart, trimend, trim, err := checkArgs(refLen, trimstart, trimend)
